@@ -51,6 +51,8 @@ def plan(tier):
 
 
 def gen_case(rng, params, idx):
+    # keyword-only parameters are sometimes called like things the generated entry point uses itself
+    kwn = rng.choice([["k1", "k2"], ["k1", "k2"], ["k1", "type"], ["method", "k2"], ["k1", "isinstance"]])
     uniform = rng.random() < 0.6
     is_method = rng.random() < 0.3
     methods = []
@@ -64,7 +66,7 @@ def gen_case(rng, params, idx):
             pos.append({"n": name, "t": rng.choice(TYPES), "opt": i >= npos - nopt, "po": po})
         kws = []
         if rng.random() < 0.5:
-            for k in sorted(rng.sample(["k1", "k2"], rng.randint(0, 2))):
+            for k in sorted(rng.sample(kwn, rng.randint(0, 2))):
                 kws.append({"n": k, "t": rng.choice(TYPES), "req": rng.random() < 0.5})
         methods.append({"mid": mid, "pos": pos, "kw": kws, "prio": 0, "self": is_method,
                         "kind": "raise" if rng.random() < 0.25 else "ret", "rewritten": rng.random() < 0.4})
@@ -82,7 +84,7 @@ def gen_case(rng, params, idx):
             slot = rng.choice([p for p in d["pos"] if not p.get("opt")] + [k for k in d["kw"] if k["req"]])
             slot["t"] = ["D", slot["t"], "never"]
             methods.append(d)
-    return {"methods": methods, "is_method": is_method, "valseed": rng.randrange(1 << 30)}
+    return {"methods": methods, "is_method": is_method, "valseed": rng.randrange(1 << 30), "kw_names": kwn}
 
 
 class Ret:
@@ -161,7 +163,8 @@ def check_case(spec, res):
               [[k["n"], T.tname(k["t"]), k["req"]] for k in m["kw"]] for m in spec["methods"]]
     maxpos = max(len(m["pos"]) for m in spec["methods"])
     for npos_given in range(0, 4):
-        for kwset in ((), ("k1",), ("k2",), ("k1", "k2")):
+        K1, K2 = spec.get("kw_names", ["k1", "k2"])
+        for kwset in ((), (K1,), (K2,), (K1, K2)):
             for rep in range(3):
                 pt = [rng.choice(TYPES) for _ in range(npos_given)]
                 kt = {k: rng.choice(TYPES) for k in kwset}
